@@ -114,7 +114,8 @@ Definition expr_sem (fd : fdesc) (e : expr) : option esem :=
     end
   | CRange =>
     match e_op e with
-    | OpEQ => option_map ENums (ints_of (e_val e))
+    | OpEQ => (* a nil-like value lists no values (util.NilInterface, as on the query side) *)
+              if nil_like (e_val e) then Some (ENums []) else option_map ENums (ints_of (e_val e))
     | OpGT => match scalars_of (e_val e) with
               | Some [s] => match e_val e with VSlice _ _ _ | VList _ _ => None
                             | _ => option_map (fun a => ERange (a + 1) two63) (int_scalar s) end
